@@ -69,6 +69,8 @@ Params(f) ==
     [] f = "Sandwich" -> [kind |-> {"PlanarSandwich", "PlanarSandwichHot", "PlanarSandwichHalf"}, kappa |-> Pick({<<1, 1>>, <<1, 2>>}, {}),
                           L |-> Pick({<<2, 1>>, <<3, 1>>}, {}), TL |-> Pick({<<0, 1>>, <<3, 1>>}, {}), TR |-> Pick({<<0, 1>>, <<2, 1>>}, {}),
                           b1 |-> Pick({<<1, 1>>, <<2, 1>>}, {}), b2 |-> Pick({<<0, 1>>, <<1, 2>>}, {})]
+    [] f = "SuOlson" -> [epsilon |-> Pick({<<1, 1>>, <<1, 10>>}, {<<2, 1>>, <<1, 2>>}), opac |-> Pick({<<1, 1>>, <<5, 2>>}, {}),
+                         trad_bc_ev |-> Pick({<<1000, 1>>, <<300, 1>>}, {})]
     [] f = "Rectangle" -> [kappa |-> Pick({<<1, 1>>, <<1, 2>>}, {}), a |-> Pick({<<2, 1>>, <<3, 1>>}, {}), b |-> Pick({<<2, 1>>, <<1, 1>>}, {}),
                            Ttop |-> Pick({<<1, 1>>, <<3, 1>>}, {})]
     [] f = "Hutchens2" -> [k |-> Pick({<<1, 1>>, <<2, 1>>}, {}), g0 |-> Pick({<<3, 1>>, <<0, 1>>}, {}), Tb |-> Pick({<<5, 1>>, <<2, 1>>}, {}),
@@ -109,6 +111,7 @@ TimesOf(f, p) ==
     [] f = "EPpiston" -> Pick({<<1, 50>>, <<1, 20>>}, {})
     [] f \in {"Kenamond1", "Kenamond2", "Kenamond3", "DSDcyl"} -> {<<1, 1>>}      \* burn-time fields do not depend on t
     [] f = "Blake" -> Pick({<<1, 20>>, <<1, 10>>}, {})
+    [] f = "SuOlson" -> Pick({<<1, 10>>, <<1, 1>>, <<10, 1>>}, {<<1, 100>>, <<3, 1>>})     \* dimensionless time tau
     [] f \in {"Rod1D", "Hutchens1", "RodNH", "Sandwich", "Rectangle", "Hutchens2"} -> Pick({<<1, 10>>, <<1, 2>>}, {<<1, 100>>})
     [] OTHER -> Times
 
@@ -116,7 +119,7 @@ TimesOf(f, p) ==
 (* fractional power of a negative number): the mathematics, not a        *)
 (* documented restriction of the solver                                  *)
 Geom(f, p) == IF "geometry" \in DOMAIN p THEN p.geometry
-              ELSE IF f \in RiemannFams \cup {"EHEP", "Mader", "EPpiston", "Rod1D", "RodNH", "Sandwich"} THEN 1 ELSE IF f = "DSDcyl" THEN 2 ELSE 3
+              ELSE IF f \in RiemannFams \cup {"EHEP", "Mader", "EPpiston", "Rod1D", "RodNH", "Sandwich", "SuOlson"} THEN 1 ELSE IF f = "DSDcyl" THEN 2 ELSE 3
 Defined(f, p, t) ==
   LET k == Geom(f, p) - 1 IN
   CASE f \in RiemannFams -> /\ ~(QEq(p.pl, p.pr) /\ QEq(p.ul, p.ur))                   \* a pure contact has no acoustic waves
